@@ -41,6 +41,8 @@ def run(ctx):
     res = tlc.run('Cheb', cfg='Cheb.cfg' if quick else 'Cheb_t.cfg', workers=8, timeout=3000)
     ctx.add_tlc(res, 'Cheb: exact values / integrals / derivative coefficients of every enumerated coefficient tensor')
     boxes = [[(-1, 1)], [(0, 2)], [(-3, 5), (-2, 2)], [(-2, 2)], [(1, 4), (-1, 1), (0, 1)]]
+    # boxes whose bounds are not binary fractions (the affine maps round): integrals follow exactly from the reference cube
+    extra_boxes = [[(0.1, 0.7)], [(-1.3, 2.1), (-0.1, 0.3)], [(-0.7, 0.7)]]
     rng = np.random.default_rng(ctx.seed)
     mirror_bad = 0
     for row in res.json:
@@ -59,10 +61,16 @@ def run(ctx):
             mirror_bad += 1
         case = {'cores': row['cores'], 'n': n}
         nontriv = d >= 2 or max(G.shape[2] for G in A) >= 2
-        for bi, box in enumerate(boxes):
+        for bi, box in enumerate(boxes + extra_boxes):
             a = np.array([box[j % len(box)][0] for j in range(d)], dtype=float)
             b = np.array([box[j % len(box)][1] for j in range(d)], dtype=float)
-            X = a + (Tf + 1.) / 2. * (b - a)
+            if bi >= len(boxes):
+                vol = Fraction(1)
+                for j in range(d):
+                    vol *= (Fraction(str(box[j % len(box)][1])) - Fraction(str(box[j % len(box)][0]))) / 2
+                iex = Fraction(row['ints'][0][0], row['ints'][0][1]) * vol
+                row['ints'].append([iex.numerator, iex.denominator])
+            X = np.clip(a + (Tf + 1.) / 2. * (b - a), a, b)      # the affine map may round a boundary point one ulp outside the box
             sym = bool(np.all(a == -b))
             ctx.case(key=('cheb', row['cores'], bi), nontrivial=nontriv or not sym,
                      sample={'n': n, 'coef': row['coef'], 'box': box, 'points': [row['pts'][k] for k in keys[:2]], 'values': [row['evals'][k] for k in keys[:2]],
@@ -91,6 +99,12 @@ def run(ctx):
                     okz = np.allclose(yo[~outside], inside_ref[~outside], atol=tol, rtol=0) and \
                         (np.all(np.isnan(yo[outside])) if isinstance(z, float) and np.isnan(z) else np.all(yo[outside] == z))
                     ctx.check(bool(okz), 'func_get:fill', 'points outside the box / inside the box wrong with fill value z=%r' % (z,), case=case)
+                    if bi == 0 and not (isinstance(z, float) and np.isnan(z)):
+                        # the reference cube is also the default box: every way of not naming it, with the fill requested explicitly
+                        for form, kw in (('no box', {}), ('a only', dict(a=-1.)), ('b only', dict(b=1.)), ('None, None', dict(a=None, b=None))):
+                            yo2 = teneva.func_get(Xo, A, z=z, skip_out=True, **kw)
+                            ok2 = np.allclose(yo2[~outside], inside_ref[~outside], atol=tol, rtol=0) and np.all(yo2[outside] == z)
+                            ctx.check(bool(ok2), 'func_get:fill', 'func_get(skip_out=True, %s): points outside the default box do not receive the fill value z=%r' % (form, z), case=case)
             # --- dense routines (any d >= 1)
             y2 = teneva.func_get_full(X, C.copy(), a, b)
             ctx.check(np.abs(y2 - exact).max() <= tol, 'func_get_full:value', 'func_get_full differs from the exact value by %.2e (n=%s box %s)' % (np.abs(y2 - exact).max(), n, box), case=case)
@@ -123,6 +137,11 @@ def run(ctx):
             Xg = np.array(np.meshgrid(*grid, indexing='ij')).reshape(d, -1).T
             ref = cheb_eval_dense(C, Xg).reshape(m_)
             ctx.check(Yd.shape == tuple(m_) and np.abs(Yd - ref).max() <= tol, 'func_gets_full:values', 'dense re-sampling on grid %s differs' % m_, case=case)
+            # the node values do not depend on the box the nodes are mapped into (including the end nodes a and b themselves)
+            for (a1, b1) in ((0.1, 0.7), (-0.1, 0.3), (-1.3, 2.1), (0., 2.), (-3., 5.)):
+                Yb = teneva.func_gets_full(C.copy(), a1, b1, np.array(m_))
+                ctx.check(Yb.shape == tuple(m_) and np.abs(Yb - ref).max() <= tol, 'func_gets_full:values',
+                          'dense re-sampling on grid %s over the box [%s, %s] differs from the polynomial values by %.3g' % (m_, a1, b1, np.abs(Yb - ref).max() if Yb.shape == tuple(m_) else -1), case=case)
             Cd = teneva.func_int_full(Yd)
             pad = np.zeros(m_)
             pad[tuple(slice(0, k) for k in n)] = C
